@@ -853,7 +853,6 @@ def _empty_string():
 @_formats('"$default"? -> "$default"')
 @_formats("delimited-argument-list? -> delimited-argument-list")
 @_formats("doc? -> doc")
-@_formats("doc -> Documentation")
 @_formats("enum-value-body? -> enum-value-body")
 @_formats('equality-operator -> "=="')
 @_formats("equality-or-greater-expression-right -> equality-expression-right")
@@ -1023,6 +1022,12 @@ def _additive_expression_right(operator, operand):
     if operator == "-" and operand.startswith("-"):
         return operator + " " + operand
     return operator + operand
+
+
+@_formats("doc -> Documentation")
+def _doc(documentation):
+    """Strips trailing whitespace, so that it does not widen the doc column."""
+    return documentation.rstrip()
 
 
 @_formats("equality-expression-right -> equality-operator additive-expression")
